@@ -158,6 +158,8 @@ def blocks(n: Names, bodies: list[tuple], bodies2: list[tuple] | None = None) ->
             out.append(("for", i, V(arr), (), body, e))
             out.append(("case", V(g), (((I(1),), body), ((V(h), I(2)), e)), (("text", "D"),)))
             out.append(("unless", cs[0], body, (), e))
+            out.append(("unless", cs[0], body, ((cs[2], e),), None))
+            out.append(("unless", cs[0], body, ((cs[3], e), (cs[2], body)), (("text", "Z"),)))
     return out
 
 
@@ -170,7 +172,7 @@ def mixed_blank_nests(seed: int = 0, small: bool = False) -> tuple[tuple, ...]:
     loud_bodies: list[tuple] = [(("out", V(n.g)),), (("text", "L"),)]
     inner = blocks(n, loud_bodies[:1] + blank_bodies[:1], blank_bodies + loud_bodies[1:])
     if small:
-        inner = [st for st in inner if st[0] in ("for", "if", "case", "unless") and (st[-1] is not None)]
+        inner = [st for st in inner if st[0] in ("for", "if", "case", "unless") and (st[-1] is not None or (st[0] == "unless" and st[3]))]
     outer = blocks(n, [(st,) for st in inner], blank_bodies[:1])
     if small:
         outer = [st for st in outer if st[0] in ("if", "for", "case", "with", "unless")]
